@@ -37,6 +37,14 @@ func (g *Gen) Base() {
 	g.next(6)
 	g.swapOpen()
 	g.next(6)
+	for k, u := range []string{"u3", "u4", "u5", "u6"} { // several farmers per pool, unequal shares
+		for _, pool := range []uint64{1, 2} {
+			pc := liquiditytypes.PoolCoinDenom(AppSwap, pool)
+			if bal := g.C.App.BankKeeper.GetBalance(g.ctx(), U(u), pc).Amount; bal.IsPositive() {
+				g.msg("liquidity.farm", liquiditytypes.NewMsgFarm(AppSwap, pool, U(u), sdk.NewCoin(pc, bal.QuoRaw(int64(2+k)))))
+			}
+		}
+	}
 	for k := 0; k < 3; k++ {
 		g.trade(1)
 		g.trade(2)
@@ -94,6 +102,9 @@ func (g *Gen) PadTo(h int64) {
 	g.trade(2)
 	g.trade(3)
 	g.next(6)
+	g.next(13 * 3600) // swap-fee gauges: the converted fees of the two pools of pair 1 are shared by pool liquidity
+	g.trade(1)
+	g.next(13 * 3600)
 	g.next(6)
 }
 
